@@ -276,18 +276,26 @@ def parseEnum (table : String) : P String := fun ts =>
 
 /-- `Decimal::from_str` on a token the lexer classified as a number: optional sign, digits with at
     most one point, at least one digit, no exponent; at most 28 fractional digits -/
-def parseDecText (t : Str) : Option Dec :=
-  let (neg, body) := match t with | '-' :: r => (true, r) | '+' :: r => (false, r) | r => (false, r)
-  let (ip, r1) := spanP isDigit body
-  let (fp, r2) := match r1 with | '.' :: r => spanP isDigit r | r => ([], r)
-  if !r2.isEmpty then none
-  else if ip.isEmpty && fp.isEmpty then none
-  else if fp.length > 28 then none
+def signSplit : Str → Bool × Str
+  | '-' :: r => (true, r)
+  | '+' :: r => (false, r)
+  | r => (false, r)
+
+def dig (c : Char) : Nat := c.toNat - '0'.toNat
+def dval (cs : List Char) : Nat := cs.foldl (fun acc c => acc * 10 + dig c) 0
+
+def parseUnsigned (neg : Bool) (body : Str) : Option Dec :=
+  let s1 := spanP isDigit body
+  let s2 := match s1.2 with | '.' :: r => spanP isDigit r | r => ([], r)
+  if !s2.2.isEmpty then none
+  else if s1.1.isEmpty && s2.1.isEmpty then none
+  else if s2.1.length > 28 then none
   else
-    let digits := ip ++ fp
-    let m : Nat := digits.foldl (fun acc c => acc * 10 + (c.toNat - '0'.toNat)) 0
+    let m : Nat := dval (s1.1 ++ s2.1)
     if m ≥ 2 ^ 96 then none
-    else some ⟨if neg then -(m : Int) else m, fp.length⟩
+    else some ⟨if neg then -(m : Int) else m, s2.1.length⟩
+
+def parseDecText (t : Str) : Option Dec := parseUnsigned (signSplit t).1 (signSplit t).2
 
 /-- `parse_number` -/
 def number : P Dec := fun ts =>
@@ -750,25 +758,28 @@ def genViaBody : Nat → GenB → List Tok → Option (GenB × List Tok)
       else if k == "End" then some (g, ts)
       else none
 
+/-- the body of `parse_via` between the name / DEFAULT and END -/
+def viaDataP : P ViaData := fun r => do
+  let k2 ← peekKey r
+  if k2 == "ViaRule" then do
+    let (rule, r) ← getName r.tail
+    let (_, r) ← semi r
+    let (g, r) ← genViaBody (r.length + 1) { rule := rule } r
+    match g.cutSize, g.layers, g.cutSpacing, g.enclosure with
+    | some cs, some ls, some sp, some en => pure (ViaData.generated ⟨g.rule, cs, ls, sp, en, g.rowcol, g.origin, g.offset⟩, r)
+    | _, _, _, _ => none
+  else do
+    let (res, r) ← if k2 == "Resistance" then (number r.tail).bind fun (d, r) => (semi r).map fun (_, r) => (some d, r) else some (none, r)
+    let (ls, r) ← viaLayers (r.length + 1) [] r
+    pure (ViaData.fixed res ls, r)
+
 /-- `parse_via` -/
 def viaDef : P ViaDef := fun ts => do
   let (_, r) ← expectKey "Via" ts
   let (n, r) ← getName r
   let k1 ← peekKey r
   let (isDef, r) := if k1 == "Default" then (true, r.tail) else (false, r)
-  let k2 ← peekKey r
-  let (data, r) ←
-    if k2 == "ViaRule" then do
-      let (rule, r) ← getName r.tail
-      let (_, r) ← semi r
-      let (g, r) ← genViaBody (r.length + 1) { rule := rule } r
-      match g.cutSize, g.layers, g.cutSpacing, g.enclosure with
-      | some cs, some ls, some sp, some en => pure (ViaData.generated ⟨g.rule, cs, ls, sp, en, g.rowcol, g.origin, g.offset⟩, r)
-      | _, _, _, _ => none
-    else do
-      let (res, r) ← if k2 == "Resistance" then (number r.tail).bind fun (d, r) => (semi r).map fun (_, r) => (some d, r) else some (none, r)
-      let (ls, r) ← viaLayers (r.length + 1) [] r
-      pure (ViaData.fixed res ls, r)
+  let (data, r) ← viaDataP r
   let k3 ← peekKey r
   if k3 == "End" then do
     let (_, r) ← expectIdent n r.tail
